@@ -43,6 +43,7 @@ def make(cfg):
 class LongShort(Harness):
     prop = 'C11'
     obligation_timeout_ms = 60000
+    chain_lemmas = True           # the aggregate bound is proven from the per-asset lemmas + the normalisation identity
 
     def inputs(self, mk):
         n = self.cfg['n']
@@ -110,6 +111,7 @@ class LongShort(Harness):
         g = self._gross(L, i)
         gsafe = L.ite(L.eq(g, 0), 1, g)
         tot = 0
+        pres = []
         for a in A:
             q = res[a]['quantity']
             qn = L.num(q)
@@ -124,8 +126,12 @@ class LongShort(Harness):
                                                                       L.And(L.eq(w, 0), L.ne(qn, 0))))))
             obl.append(('affordable_within_allocation[%s]' % a, L.And(valid, L.gt(aq * pa, ad))))
             obl.append(('largest_affordable_within_one_unit[%s]' % a, L.And(valid, L.le((aq + 1) * pa, ad - 1))))
+            # (a short leg's after-cost dollars are LARGER in magnitude: pre - f|pre| = pre(1+f) for pre < 0; hence the (1+f))
+            obl.append(('lemma:after_cost_allocation_within_pre_cost_times_one_plus_fee[%s]' % a, L.And(valid, L.gt(ad, L.abs(pre) * (1 + f)))))
             tot = tot + aq * pa
+            pres.append(L.abs(pre))
         if A:
+            obl.append(('lemma:pre_cost_allocations_sum_to_leverage_times_equity', L.And(valid, L.ne(g, 0), L.ne(L.sum(pres), Lv * E))))
             obl.append(('gross_exposure_within_leverage', L.And(valid, L.gt(tot, Lv * E * (1 + f)))))
         return obl
 
